@@ -37,7 +37,7 @@ def obligations(tier):
             obs.append(Ob(f"C17.valUF/{name}", "c17", "c_seq_value", {"VF_FORM": i, "VF_MAXDIG": 6 if tier == "quick" else 10, "VF_UF": 1}, t, FN,
                           "int() uninterpreted; numeral text = optional '-' + any string of length 1..6 [thorough 10]",
                           api=True))
-    obs += lex_obs("C17", "c_kw", ["seq_options", "seq_options2"], tier, "lex")
+    obs += lex_obs("C17", "c_kw", ["seq_options", "seq_options2", "seq_after_cache"], tier, "lex")
     obs += lex_obs("C17", "c_case", ["seq_options", "seq_options2"], tier, "lexcase")
     return obs
 
